@@ -542,6 +542,7 @@ def rule_typename_matrix(ctx):
             if c.get('k') == 'call' and ctx.pv.local_fns(c.get('callee')) and neg:
                 guards.append((n, c, f_))
     roles = {}
+    guard_fn = {}
     for n, c, f_ in guards:
         args = [ctx.pv.eval(f_, a, {}, 0) for a in c['args']]
         fields = set()
@@ -549,8 +550,10 @@ def rule_typename_matrix(ctx):
             fields |= TM.fields_in(a) | ctx.pv.fields_through_private(a)
         if 'ResolvedFragment.selection_set' in fields or 'ResolvedFragment.on' in fields:
             roles['fragment'] = n
+            guard_fn['fragment'] = f_
         if 'SelectedField.selection_set' in fields or 'Query.selections' in fields:
             roles['field'] = n
+            guard_fn['field'] = f_
     for r, what in (('fragment', 'named fragments on interface/union types'), ('field', 'fields of interface/union type')):
         if r in roles:
             obs.append(ok('TYPENAME-MATRIX', 'validate_typename_presence/' + r, '__typename required on ' + what, roles[r].get('sp', '')))
@@ -596,7 +599,50 @@ def rule_typename_matrix(ctx):
                                'abstract selections the filter drops may omit __typename'))
             else:
                 obs.append(ok('TYPENAME-MATRIX', inst, 'filter reads no selection content', n.get('sp', '')))
-    # both abstract kinds are covered where kinds are filtered
+    # both abstract kinds are covered where kinds are filtered: each rejecting check is reachable for a parent of kind
+    # Interface and for one of kind Union (path conditions evaluated with the TypeId kind as the only known atom)
+    def pat_kinds(p):
+        """TypeId kinds a pattern matches (None: the pattern is not about TypeId / matches anything)"""
+        if not isinstance(p, tuple) or not p:
+            return None
+        if p[0] == 'or':
+            ks = [pat_kinds(x) for x in p[1]]
+            if any(k is None for k in ks):
+                return None
+            out = set()
+            for k in ks:
+                out |= k
+            return out
+        if p[0] == 'ctor' and '::TypeId::' in p[1]:
+            return {p[1].split('::')[-1]}
+        if p[0] == 'guarded':
+            return pat_kinds(p[1])
+        if p[0] == 'bind' and len(p) > 2 and isinstance(p[2], tuple):
+            return pat_kinds(p[2])
+        return None
+
+    def excluded(f_, node, kind):
+        """is `node` unreachable when the TypeId tested on the way is of `kind`?"""
+        for pc in P.path_conds(f_, node):
+            if pc[0] == 'if':
+                t = ctx.pv.eval(f_, pc[1], H.sym_env(f_), 0)
+                _x, c, pol = P.canon_if(t, pc[2])
+                if c[0] == 'op' and c[1] == 'matches' and c[2][-1][0] == 'pat':
+                    ks = pat_kinds(c[2][-1][1])
+                    if ks is not None and ((kind in ks) != pol):
+                        return True
+            elif pc[0] in ('match', 'letelse'):
+                ks = pat_kinds(pc[2])
+                if ks is not None and kind not in ks:
+                    return True
+            elif pc[0] == 'nomatch':
+                ks = pat_kinds(pc[2])
+                if ks is not None and kind in ks:
+                    return True
+        return False
+    n_sel = {}
+    for kind in ('Interface', 'Union'):
+        n_sel[kind] = sum(1 for r in ('fragment', 'field') if r in roles and not excluded(guard_fn[r], roles[r], kind))
     pats = []
     for f_ in family:
         for n in f_.walk(lambda n: n['k'] == 'match'):
@@ -604,7 +650,7 @@ def rule_typename_matrix(ctx):
                 pats.append(repr(P.pat_summary(a['pat'])))
     txt = ' '.join(pats)
     for kind in ('Interface', 'Union'):
-        cnt = txt.count('TypeId::' + kind)
+        cnt = max(txt.count('TypeId::' + kind), n_sel[kind] if txt.count('TypeId::' + kind) >= 1 else 0)
         if cnt >= 2:
             obs.append(ok('TYPENAME-MATRIX', 'validate_typename_presence/kind-' + kind, '%s positions selected in both checks' % kind, fn.loc))
         else:
